@@ -106,7 +106,8 @@ def _run(tier, seed, t0, REPO):
         try:
             theory.check_proof(prf, check_level=0)
         except Exception as e:
-            violations.append(dict(desc, function='macro ' + rule, clause='expansion-checks',
+            violations.append(dict(desc, function='macro ' + rule,
+                                   clause='expansion-checks:%s: %s' % (type(e).__name__, str(e).split('\n')[0][:24]),
                                    what='expansion produced but rejected by the checker / proves another sequent: %s: %s'
                                         % (type(e).__name__, str(e)[:200])))
             return
@@ -124,7 +125,12 @@ def _run(tier, seed, t0, REPO):
             if it.subproof:
                 yield from walk(it.subproof)
 
+    part_deadline = [None]
+
     def harvest(state, origin, mutate=True):
+        if part_deadline[0] is not None and time.time() > part_deadline[0]:
+            stats['time_budget_hit'] = stats.get('time_budget_hit', 0) + 1
+            return
         items = list(walk(state.prf))
         props = [it.th.prop for it in items if it.th is not None]
         names = [it.args for it in items if isinstance(it.args, str)] + \
@@ -168,12 +174,15 @@ def _run(tier, seed, t0, REPO):
 
     # ---------------------------------------------------------------- (A) recorded library proofs
     thys = ['logic_base', 'logic'] if tier == 'quick' else ['logic_base', 'logic', 'function', 'list', 'set', 'nat']
+    part_deadline[0] = time.time() + (120 if tier == 'quick' else 300)      # wall-clock budget of part (A)
     for thy_name in thys:
+        if time.time() > part_deadline[0]:
+            break
         with open(REPO + '/library/%s.json' % thy_name, encoding='utf-8') as f:
             content = json.load(f)['content']
         vals = [v for v in content if v.get('ty') == 'thm' and 'proof' in v]
         if thy_name in ('set', 'nat'):
-            vals = rng.sample(vals, min(len(vals), 40))
+            vals = rng.sample(vals, min(len(vals), 25))
         elif tier == 'quick' and len(vals) > 30:
             vals = rng.sample(vals, 30)
         for val in vals:
@@ -193,7 +202,9 @@ def _run(tier, seed, t0, REPO):
     def observer(state, h):
         if h['rng'].random() < 0.5:
             harvest(state, 'editing session on ' + h['goal'], mutate=h['rng'].random() < 0.3)
-    c13_state.run(tier, seed + 2000, observer=observer, n_goals_override=(40 if tier == 'quick' else 300))
+    part_deadline[0] = time.time() + (120 if tier == 'quick' else 200)      # wall-clock budget of part (B)
+    c13_state.run('quick', seed + 2000, observer=observer, n_goals_override=(40 if tier == 'quick' else 200))
+    part_deadline[0] = None
 
     # ---------------------------------------------------------------- (C) normalisation macros with an own evaluation
     basic.load_theory('real')
@@ -238,7 +249,7 @@ def _run(tier, seed, t0, REPO):
             return Implies(gen_prop(d - 1), gen_prop(d - 1))
         return Not(gen_prop(d - 1))
 
-    n_c = 150 if tier == 'quick' else 2500
+    n_c = 150 if tier == 'quick' else 800
     for it in range(n_c):
         T = rng.choice([NatType, IntType, RealType])
         t = gen_poly(T, rng.choice([1, 2, 3]))
@@ -246,10 +257,11 @@ def _run(tier, seed, t0, REPO):
         rule = {NatType: 'nat_norm', IntType: 'int_norm', RealType: 'real_norm'}[T]
         check_single(rule, Eq(t, t2), [], 'generated')
         c1, c2 = num[T](rng.randint(0, 6)), num[T](rng.randint(0, 6))
-        if T == NatType:
-            check_single('nat_const_ineq', Not(Eq(c1, c2)), [], 'generated')
-            check_single('nat_const_less_eq', K.less_eq(T)(c1, c2), [], 'generated')
-            check_single('nat_const_less', K.less(T)(c1, c2), [], 'generated')
+        # the nat macros are offered goals at every numeric type (they must reject, or agree with their expansion)
+        check_single('nat_const_ineq', Not(Eq(c1, c2)), [], 'generated')
+        check_single('nat_const_less_eq', K.less_eq(T)(c1, c2), [], 'generated')
+        check_single('nat_const_less', K.less(T)(c1, c2), [], 'generated')
+        check_single('nat_norm', Eq(t, t2), [], 'generated')
         A, B = gen_prop(2), gen_prop(2)
         check_single('imp_conj', Implies(A, B), [], 'generated')
         check_single('imp_disj', Implies(A, B), [], 'generated')
@@ -259,9 +271,89 @@ def _run(tier, seed, t0, REPO):
         check_single('trivial', Implies(A, B, A), [], 'generated')
         check_single('trivial', Implies(A, B), [], 'generated')
 
+    # ---------------------------------------------------------------- (E) library theorems applied with generated
+    # instantiations: schematic predicates / functions instantiated by constant (vacuous) abstractions, by
+    # abstractions that use their argument twice, or left open; 0..n premises supplied
+    from kernel.type import TVar, STVar, TFun, TyInst
+    from kernel.term import Lambda
+
+    def inst_for(th, mode):
+        inst = Inst()
+        for stv in th.prop.get_stvars():
+            inst.tyinst[stv.name] = TVar(stv.name)
+        for v in th.prop.get_svars():
+            T = v.T.subst(inst.tyinst)
+            if T.is_fun() and mode in ('vacuous', 'diagonal', 'mixed'):
+                argTs, resT = T.strip_type()
+                bvs = [Var('bv%d_%s' % (i, v.name), A) for i, A in enumerate(argTs)]
+                m_ = mode if mode != 'mixed' else rng.choice(['vacuous', 'diagonal', 'var'])
+                if m_ == 'vacuous':
+                    body = Var('c_' + v.name, resT)
+                elif m_ == 'diagonal':
+                    G = Var('G_' + v.name, TFun(*(argTs + argTs + [resT])))
+                    body = G(*(bvs + bvs))
+                else:
+                    inst[v.name] = Var('V_' + v.name, T)
+                    continue
+                t = body
+                for bv in reversed(bvs):
+                    t = Lambda(bv, t)
+                inst[v.name] = t
+            else:
+                inst[v.name] = Var('V_' + v.name, T)
+        return inst
+
+    e_thys = ['logic_base', 'logic', 'hoare'] if tier == 'quick' else ['logic_base', 'logic', 'set', 'function', 'hoare']
+    for thy_name in e_thys:
+        try:
+            basic.load_theory(thy_name)
+        except Exception:
+            continue
+        context.set_context(None, vars={})
+        names = sorted(theory.thy.get_data('theorems').keys())
+        # first the theorems with a schematic function AND at least two assumptions (matching order matters there)
+        prio = []
+        for nm_ in names:
+            try:
+                th_ = theory.get_theorem(nm_)
+                if any(v.T.is_fun() for v in th_.prop.get_svars()) and len(th_.prop.strip_implies()[0]) >= 2:
+                    prio.append(nm_)
+            except Exception:
+                pass
+        cap1, cap2 = (60, 25) if tier == 'quick' else (300, 120)
+        if len(prio) > cap1:
+            prio = rng.sample(prio, cap1)
+        rest = [n_ for n_ in names if n_ not in prio]
+        names = prio + (rng.sample(rest, cap2) if len(rest) > cap2 else rest)
+        for th_name in names:
+            try:
+                th = theory.get_theorem(th_name)
+            except Exception:
+                continue
+            if not any(v.T.is_fun() for v in th.prop.get_svars()) and rng.random() < 0.6:
+                continue
+            for mode in ('vacuous', 'diagonal', 'mixed'):
+                try:
+                    inst = inst_for(th, mode)
+                    As, C = th.prop.subst_norm(inst).strip_implies()
+                except Exception:
+                    continue
+                fun_only = Inst()
+                fun_only.tyinst = TyInst(**{k: v for k, v in inst.tyinst.items()}) if False else inst.tyinst
+                for k_, v_ in inst.items():
+                    if v_.get_type().is_fun():
+                        fun_only[k_] = v_
+                for k in range(0, min(len(As), 3) + 1):
+                    prev_ths = [Thm(A) for A in As[:k]]
+                    origin = '%s.%s with %s instantiation, %d premises' % (thy_name, th_name, mode, k)
+                    check_single('apply_theorem', th_name, prev_ths, origin)
+                    check_single('apply_theorem_for', (th_name, inst), prev_ths, origin)
+                    check_single('apply_theorem_for', (th_name, fun_only), prev_ths, origin + ' (functions only)')
+    basic.load_theory('logic_base')
+
     # ---------------------------------------------------------------- (D) veriT rules: expansion vs evaluation
     from bounded import c18_verit
-    budget = [400 if tier == 'quick' else 6000]
+    budget = [400 if tier == 'quick' else 1500]
     seen_rule = {}
 
     def on_accept(name, args, prevs, th, family):
@@ -292,9 +384,11 @@ def _run(tier, seed, t0, REPO):
             uniq.append(v)
     return {'name': 'c04_macros',
             'rule': 'macro lines of the recorded proofs of %s (with 8 kinds of mutation), macro lines of C13 editing '
-                    'sessions, %d generated goals for nat/int/real_norm, nat_const_*, imp_conj, imp_disj, trivial; for each '
+                    'sessions, %d generated goals for nat/int/real_norm, nat_const_*, imp_conj, imp_disj, trivial; library theorems '
+                    'of %s applied through apply_theorem(_for) with vacuous / diagonal / open instantiations of their schematic '
+                    'functions and 0-3 premises; veriT rule instances accepted in the C18 harness (sampled per rule); for each '
                     'application with an evaluation AND an expansion: expansion checked at check_level 0 and compared '
-                    'with the evaluation' % ('+'.join(thys), n_c),
+                    'with the evaluation' % ('+'.join(thys), n_c, '+'.join(e_thys)),
             'evaluations': stats['evaluated'], 'distinct_nontrivial': len(distinct), 'stats': stats,
             'expanded_per_rule': dict(sorted(per_rule.items())), 'samples': samples, 'violations': uniq,
             'n_violations': len(uniq), 'violations_by_clause': by, 'secs': round(time.time() - t0, 1)}
